@@ -60,6 +60,17 @@ fn parity24(data: &[u8]) -> u32 {
     r & 0xFFFFFF
 }
 
+/// overwrite message bits `first ..` (1-based) with a raw code and recompute the last 24 bits
+fn overwrite(frame: &[u8], first: usize, width: usize, val: u64, addr: u32) -> Vec<u8> {
+    let mut m = Msg { b: frame.to_vec() };
+    for k in 0..width {
+        let pos = first - 1 + k;
+        m.b[pos / 8] &= !(1 << (7 - pos % 8));
+    }
+    m.put(first, width, val);
+    m.seal(addr)
+}
+
 fn bitv(x: u32, i: u32) -> u32 {
     (x >> i) & 1
 }
@@ -1193,6 +1204,96 @@ pub fn run(out: &mut Out, rng: &mut Rng, thorough: bool) {
                 let f = m.seal(if df == 17 { 0 } else { rng.below(1 << 24) as u32 });
                 let (d, _) = decode_json(&f);
                 out.case(&format!("dec {}", hex(&f)), &dec_answer(&d));
+            }
+        }
+    }
+
+    // ---- correspondence only: every raw code of every numeric field (also the codes off the encoder's
+    //      grid, the "no information" codes and the codes a register rejects), on a valid base frame
+    {
+        let mut raw = |out: &mut Out, rng: &mut Rng, words: Vec<String>, first: usize, width: usize| {
+            let w: Vec<&str> = words.iter().map(|s| s.as_str()).collect();
+            if let Some((f, _)) = build(&w) {
+                let addr = if w[0] == "surv" { w[7].parse::<u32>().unwrap() } else { 0 };
+                let n = 1u64 << width;
+                let step = if n > 4096 { n / 4096 } else { 1 };
+                let mut code = 0;
+                while code < n {
+                    let g = overwrite(&f, 32 + first, width, code, addr);
+                    let (d, _) = decode_json(&g);
+                    out.case(&format!("dec {}", hex(&g)), &dec_answer(&d));
+                    if let Dec::Json(j) = &d {
+                        if let Ok(v) = serde_json::from_str::<Value>(j) {
+                            df20_clause(out, &format!("dec {}", hex(&g)), &v);
+                        }
+                    }
+                    code += step;
+                }
+                out.stat_n("raw-code-sweeps", n / step);
+            }
+            let _ = rng;
+        };
+        // BDS 0,5 altitude (12 bits), BDS 0,6 movement (7) and track (8 with status)
+        let mut w = es_prefix(rng, "pos");
+        w.extend(pos_fields(rng, 11, "q", 10000));
+        raw(out, rng, w, 9, 12);
+        let mut w = es_prefix(rng, "surf");
+        w.extend([s(6), s(100), s(1), s(64), s(0), s(1), s(1000), s(2000)]);
+        raw(out, rng, w.clone(), 6, 7);
+        raw(out, rng, w, 13, 8);
+        // BDS 0,9: both velocity fields with their direction bits (11 bits each), vertical rate with sign (10),
+        // difference with sign (8); airspeed / heading fields of subtypes 3 and 4
+        for st in [1u64, 2] {
+            let w = velg(rng, st, 0, 100, 1, 200, None);
+            raw(out, rng, w.clone(), 14, 11);
+            raw(out, rng, w.clone(), 25, 11);
+            raw(out, rng, w.clone(), 37, 10);
+            raw(out, rng, w, 49, 8);
+        }
+        for st in [3u64, 4] {
+            let w = vela(rng, st, 1, 512, 1, 300);
+            raw(out, rng, w.clone(), 14, 11);
+            raw(out, rng, w, 25, 11);
+        }
+        // BDS 6,1 squawk field (13 bits incl. the X bit), BDS 6,2 selected altitude (11), pressure (9), heading (10)
+        let mut w = es_prefix(rng, "stat");
+        w.extend([s(1), s(0), s("1200")]);
+        raw(out, rng, w, 12, 13);
+        let w = tss(rng, 10000, 10132, 1, 100);
+        raw(out, rng, w.clone(), 10, 11);
+        raw(out, rng, w.clone(), 21, 9);
+        raw(out, rng, w, 30, 10);
+        // BDS 4,0: each 13-bit status+value group; BDS 5,0 and 6,0: each status+sign+value group
+        let w = vi(rng, 1, 10000, 1, 12000, 1, 10132);
+        raw(out, rng, w.clone(), 1, 13);
+        raw(out, rng, w.clone(), 14, 13);
+        raw(out, rng, w, 27, 13);
+        let w = tt(rng, Some(10), Some(100), Some(200), Some(5), Some(210));
+        raw(out, rng, w.clone(), 1, 11);
+        raw(out, rng, w.clone(), 12, 12);
+        raw(out, rng, w.clone(), 24, 11);
+        raw(out, rng, w.clone(), 35, 11);
+        raw(out, rng, w, 46, 11);
+        let w = hs(rng, Some(100), Some(250), Some(150), Some(-10), Some(10));
+        raw(out, rng, w.clone(), 1, 12);
+        raw(out, rng, w.clone(), 13, 11);
+        raw(out, rng, w.clone(), 24, 11);
+        raw(out, rng, w.clone(), 35, 11);
+        raw(out, rng, w, 46, 11);
+        // the AC / ID field of DF 4 / 5 / 20 / 21: all 2^13 codes (metric and illegal Gillham codes included)
+        for df in [4u64, 5, 20, 21] {
+            let mut w = surv_prefix(rng, df, "z", s(0));
+            if df >= 20 {
+                w.extend([s("id"), s("TEST")]);
+            }
+            let ws: Vec<&str> = w.iter().map(|s| s.as_str()).collect();
+            if let Some((f, _)) = build(&ws) {
+                let addr = ws[7].parse::<u32>().unwrap();
+                for code in 0..8192u64 {
+                    let g = overwrite(&f, 20, 13, code, addr);
+                    let (d, _) = decode_json(&g);
+                    out.case(&format!("dec {}", hex(&g)), &dec_answer(&d));
+                }
             }
         }
     }
